@@ -92,6 +92,134 @@ theorem registry_ptrcalls_only_default :
         "*github.com/wader/fq/pkg/interp.Registry.FS", "*github.com/wader/fq/pkg/interp.Registry.Func"] →
       c.pkg = "pkg/interp" ∧ c.var = "DefaultRegistry" := by decide
 
+/-- Methods WITHOUT a pointer receiver selected on package-level variables — interface methods (dynamic
+    dispatch: may mutate whatever the interface holds; a package-level `hash.Hash32` whose `Write`/`Sum` is
+    called from a decoder is exactly such a state leak) and value-receiver methods (may mutate through a map,
+    slice or pointer inside the value).  Entry by entry, each body read:
+
+  * `encoding/binary.{bigEndian,littleEndian}.{Uint16,Uint32,Uint64,PutUint32,PutUint64}` on
+    `binary.BigEndian`/`LittleEndian`: zero-size stateless structs; the methods only touch their argument slice.
+  * `time.Time.Add` on the epoch constants (`epochDate`, `unixTimeEpochDate`): returns a new Time.
+  * `elf.dynamicTableEntries.lookup` (elf.go:410-417): a `for … range d` that compares and returns a copy.
+  * `scalar.UintMap.MapUint`, `scalar.UintMapSymStr.MapUint` (scalar_gen.go:1726-1732, 1777-1782): one map read
+    `m[s.Actual]`, result copied into the by-value argument.
+  * `embed.FS.Open` on `builtinFS` (pkg/interp): read-only embedded file system, safe for concurrent use.
+  There is NO interface-typed entry (`kind = "iface"`) on the current tree — `no_iface_calls`. -/
+def otherCallAllow : List Gen.OtherCall := [
+  ⟨"format/bzip2", "encoding/binary.BigEndian", "encoding/binary.bigEndian.Uint32", "value", false⟩,
+  ⟨"format/elf", "dynamicTableMap", "github.com/wader/fq/format/elf.dynamicTableEntries.lookup", "value", false⟩,
+  ⟨"format/fit/mappers", "epochDate", "time.Time.Add", "value", false⟩,
+  ⟨"format/inet", "encoding/binary.BigEndian", "encoding/binary.bigEndian.PutUint32", "value", false⟩,
+  ⟨"format/inet", "encoding/binary.BigEndian", "encoding/binary.bigEndian.PutUint64", "value", false⟩,
+  ⟨"format/inet", "format.IPv4ProtocolMap", "github.com/wader/fq/pkg/scalar.UintMap.MapUint", "value", false⟩,
+  ⟨"format/inet", "nextHeaderNames", "github.com/wader/fq/pkg/scalar.UintMapSymStr.MapUint", "value", false⟩,
+  ⟨"format/inet/flowsdecoder", "encoding/binary.BigEndian", "encoding/binary.bigEndian.Uint16", "value", false⟩,
+  ⟨"format/luajit", "encoding/binary.BigEndian", "encoding/binary.bigEndian.PutUint64", "value", false⟩,
+  ⟨"format/mp4", "encoding/binary.BigEndian", "encoding/binary.bigEndian.PutUint32", "value", false⟩,
+  ⟨"format/pcap", "encoding/binary.BigEndian", "encoding/binary.bigEndian.PutUint32", "value", false⟩,
+  ⟨"format/postgres/common", "encoding/binary.LittleEndian", "encoding/binary.littleEndian.Uint32", "value", false⟩,
+  ⟨"format/tar", "unixTimeEpochDate", "time.Time.Add", "value", false⟩,
+  ⟨"pkg/decode", "encoding/binary.BigEndian", "encoding/binary.bigEndian.Uint16", "value", false⟩,
+  ⟨"pkg/decode", "encoding/binary.BigEndian", "encoding/binary.bigEndian.Uint32", "value", false⟩,
+  ⟨"pkg/decode", "encoding/binary.BigEndian", "encoding/binary.bigEndian.Uint64", "value", false⟩,
+  ⟨"pkg/interp", "builtinFS", "embed.FS.Open", "value", false⟩
+]
+
+theorem other_calls_ok : ∀ c ∈ Gen.otherCalls, c ∈ otherCallAllow := by decide
+
+/-- no method of an INTERFACE-typed package-level variable is selected anywhere outside init -/
+theorem no_iface_calls : ∀ c ∈ Gen.otherCalls, c.kind ≠ "iface" := by decide
+
+/-- Package-level variables initialised by a function CALL (possibly stateful objects: hashers, buffers,
+    decoders) and used inside function bodies.  Judged by type and constructor:
+
+  * `time.Time` from `time.Date` (cocoaTimeEpochDate ×2, epochDate, unixTimeEpochDate ×2): immutable value.
+  * `scalar.SintFn` / `scalar.UintFn` from `scalar.*ActualDateDescription`: function values closing over an epoch
+    and a format string only (pkg/scalar/scalar.go), no captured mutable state.
+  * `*regexp.Regexp` from `regexp.MustCompile` (whitespaceRE, camelToSnakeRe): safe for concurrent use.
+  * `ansi.Code` from `MakeCode`: a struct of two strings.
+  * `*big.Int` `mathx.BigIntOne`: only ever an OPERAND (`n.Sub(n, BigIntOne)`, `new(big.Int).Lsh(BigIntOne, …)`,
+    cbor.go:120, big.go:10), never a receiver — and a pointer-receiver call on it would appear in `Gen.ptrCalls`.
+  * `error` from `errors.New` (ErrOffset, ErrNegativeNBits, ErrWalk*, ErrInterrupt): immutable sentinels.
+  * `checksum.Table` from `MakeTable`: `[256]uint` array VALUE, indexed read-only (writes would be in `Gen.writes`).
+  * `encoding.Encoding` from `unicode.UTF16` (UTF16BOM/BE/LE): x/text encodings are immutable descriptors;
+    state lives in the Decoder that `NewDecoder()` allocates per call (pkg/decode/read.go).
+  * `*interp.Registry` `DefaultRegistry` from `NewRegistry`: the registry itself — `ptrcalls_ok`,
+    `type_writes_ok`, `guarded_uses_ok`. -/
+def callInitAllow : List Gen.CallInit := [
+  ⟨"format/apple/bookmark", "cocoaTimeEpochDate", "time.Time", "time.Date"⟩,
+  ⟨"format/apple/bplist", "cocoaTimeEpochDate", "time.Time", "time.Date"⟩,
+  ⟨"format/fit/mappers", "epochDate", "time.Time", "time.Date"⟩,
+  ⟨"format/matroska", "sintActualMatroskaEpochDescription", "github.com/wader/fq/pkg/scalar.SintFn", "scalar.SintActualDateDescription"⟩,
+  ⟨"format/mp4", "uintActualQuicktimeEpochDescription", "github.com/wader/fq/pkg/scalar.UintFn", "scalar.UintActualDateDescription"⟩,
+  ⟨"format/tar", "unixTimeEpochDate", "time.Time", "time.Date"⟩,
+  ⟨"format/xml", "whitespaceRE", "*regexp.Regexp", "regexp.MustCompile"⟩,
+  ⟨"internal/ansi", "Reset", "github.com/wader/fq/internal/ansi.Code", "MakeCode"⟩,
+  ⟨"internal/mapstruct", "camelToSnakeRe", "*regexp.Regexp", "regexp.MustCompile"⟩,
+  ⟨"internal/mathx", "BigIntOne", "*math/big.Int", "big.NewInt"⟩,
+  ⟨"pkg/bitio", "ErrNegativeNBits", "error", "errors.New"⟩,
+  ⟨"pkg/bitio", "ErrOffset", "error", "errors.New"⟩,
+  ⟨"pkg/checksum", "ANSI16Table", "github.com/wader/fq/pkg/checksum.Table", "MakeTable"⟩,
+  ⟨"pkg/checksum", "ATM8Table", "github.com/wader/fq/pkg/checksum.Table", "MakeTable"⟩,
+  ⟨"pkg/checksum", "Poly04c11db7Table", "github.com/wader/fq/pkg/checksum.Table", "MakeTable"⟩,
+  ⟨"pkg/decode", "ErrWalkBreak", "error", "errors.New"⟩,
+  ⟨"pkg/decode", "ErrWalkSkipChildren", "error", "errors.New"⟩,
+  ⟨"pkg/decode", "ErrWalkStop", "error", "errors.New"⟩,
+  ⟨"pkg/decode", "UTF16BE", "golang.org/x/text/encoding.Encoding", "unicode.UTF16"⟩,
+  ⟨"pkg/decode", "UTF16BOM", "golang.org/x/text/encoding.Encoding", "unicode.UTF16"⟩,
+  ⟨"pkg/decode", "UTF16LE", "golang.org/x/text/encoding.Encoding", "unicode.UTF16"⟩,
+  ⟨"pkg/interp", "DefaultRegistry", "*github.com/wader/fq/pkg/interp.Registry", "NewRegistry"⟩,
+  ⟨"pkg/interp", "ErrInterrupt", "error", "errors.New"⟩,
+  ⟨"pkg/scalar", "unixTimeEpochDate", "time.Time", "time.Date"⟩
+]
+
+theorem call_init_ok : ∀ v ∈ Gen.callInitVars, v ∈ callInitAllow := by decide
+
+/-- Struct types that own a sync.Once / sync.Mutex / sync.RWMutex.  `interp.Registry` and `lazyre.RE` are
+    reachable from package-level variables (process-wide); `tlsdecrypt.halfConn` is allocated per TLS decode
+    (format/tls) and `ctxstack.Stack` per Interp (property C20) — neither is stored in a package-level variable
+    (`Gen.callInitVars`, `Gen.writes`, `Gen.ptrCalls` would show it). -/
+def guardedTypesKnown : List String := [
+  "github.com/wader/fq/format/tls/tlsdecrypt.halfConn", "github.com/wader/fq/internal/ctxstack.Stack",
+  "github.com/wader/fq/internal/lazyre.RE", "github.com/wader/fq/pkg/interp.Registry"]
+
+theorem guarded_types_ok : ∀ t ∈ Gen.guardedTypes, t ∈ guardedTypesKnown := by decide
+
+/-- Every access to a field of the two PROCESS-WIDE lock-owning types that is outside `init` bodies and
+    outside the literal passed to `Once.Do` needs its own reason why it cannot race with the Once body:
+
+  * lazyre.RE `S`, `m`, `re` in `(*RE).Must` (lazyre.go:24-29): all between `lr.m.Lock()` and the deferred Unlock.
+  * Registry `EnvFuncFns` in `(*Interp).Eval`, `FSs` in `(*Interp)._registry`: read-only after init
+    (written by `Registry.Func`/`FS`, init time only — `init_only_closed`), never touched by the Once body.
+  * Registry `EnvFuncFns`/`FSs`/`allGroup`/`groups`/`formatResolved` in `(*Registry).Func`/`FS`/`Format`:
+    registration, init time only.
+  * Registry `groups` in `(*Registry).Group`, `(*Registry).Groups`, `allGroup` in `(*Registry).MustAll`:
+    each calls `r.resolveGroups()` first (registry.go:104, 120, 125), so the read happens after its own `Do`
+    returned (happens-before by sync.Once).
+  In particular NO function reads `formatResolved` beside the init-time guard in `Format`: an unsynchronised
+  fast path `if r.formatResolved { return }` in front of `Do` (broken double-checked locking) would be a new
+  entry here. -/
+def guardedUseAllow : List Gen.GuardedUse := [
+  ⟨"github.com/wader/fq/internal/lazyre.RE", "S", "internal/lazyre", "(*RE).Must"⟩,
+  ⟨"github.com/wader/fq/internal/lazyre.RE", "m", "internal/lazyre", "(*RE).Must"⟩,
+  ⟨"github.com/wader/fq/internal/lazyre.RE", "re", "internal/lazyre", "(*RE).Must"⟩,
+  ⟨"github.com/wader/fq/pkg/interp.Registry", "EnvFuncFns", "pkg/interp", "(*Interp).Eval"⟩,
+  ⟨"github.com/wader/fq/pkg/interp.Registry", "EnvFuncFns", "pkg/interp", "(*Registry).Func"⟩,
+  ⟨"github.com/wader/fq/pkg/interp.Registry", "FSs", "pkg/interp", "(*Interp)._registry"⟩,
+  ⟨"github.com/wader/fq/pkg/interp.Registry", "FSs", "pkg/interp", "(*Registry).FS"⟩,
+  ⟨"github.com/wader/fq/pkg/interp.Registry", "allGroup", "pkg/interp", "(*Registry).Format"⟩,
+  ⟨"github.com/wader/fq/pkg/interp.Registry", "allGroup", "pkg/interp", "(*Registry).MustAll"⟩,
+  ⟨"github.com/wader/fq/pkg/interp.Registry", "formatResolved", "pkg/interp", "(*Registry).Format"⟩,
+  ⟨"github.com/wader/fq/pkg/interp.Registry", "groups", "pkg/interp", "(*Registry).Format"⟩,
+  ⟨"github.com/wader/fq/pkg/interp.Registry", "groups", "pkg/interp", "(*Registry).Group"⟩,
+  ⟨"github.com/wader/fq/pkg/interp.Registry", "groups", "pkg/interp", "(*Registry).Groups"⟩
+]
+
+theorem guarded_uses_ok :
+    ∀ u ∈ Gen.guardedUses,
+      u.typ ∈ ["github.com/wader/fq/internal/lazyre.RE", "github.com/wader/fq/pkg/interp.Registry"] →
+      u ∈ guardedUseAllow := by decide
+
 /-- The only package-level variables whose address is taken outside `init` are `decode.Group`s
     (`d.FieldFormat("frame", &mp3FrameGroup, nil)` …): pkg/decode only reads `Group.Formats` /
     `Group.DefaultInArg` of the pointer it is given — which `type_writes_ok` checks for the whole module. -/
